@@ -61,6 +61,9 @@ structure DLSpec (c : Cfg) (t0 : Nat) (fo : Bool) (s s' : St) (more : Bool) : Pr
   jobs_pre : ordered c = true → ∃ l, s'.jobs = s.jobs ++ l
   exh_stable : s.ready = [] → s.srcDead = true → s'.ready = [] ∧ s'.srcDead = true ∧ more = false
   pos_le : s.srcPos ≤ s'.srcPos
+  work_le : work s' ≤ work s
+  pre_orig : fo = true → s'.preLeft = s.preLeft
+  pre_nomore : more = false → s'.preLeft = s.preLeft
 
 theorem map_items_push {s s' : St} {t : Tracker} (h : s'.trk = s.trk ++ [t]) {l : List Nat}
     (hl : ∀ i ∈ l, i < s.trk.length) :
@@ -83,6 +86,7 @@ theorem dlspec_push {c : Cfg} {t0 : Nat} {fo : Bool} {s s' : St}
     (hexh : c.pdMode ≠ 1 → s.origAlive = false → False)
     (hnexh : s.ready = [] → s.srcDead = true → False)
     (hpre : s.preLeft = none → s'.preLeft = none)
+    (hpreo : fo = true → s'.preLeft = s.preLeft)
     (htrk : s'.trk = s.trk ++ [newTrk s tasks]) (hready : s'.ready = rest)
     (hjobs : s'.jobs = if ordered c then s.jobs ++ [s.trk.length] else s.jobs)
     (hjobsSet : s'.jobsSet = if ordered c then s.jobsSet else s.jobsSet ++ [s.trk.length])
@@ -107,7 +111,7 @@ theorem dlspec_push {c : Cfg} {t0 : Nat} {fo : Bool} {s s' : St}
     (by omega) (by intro _ i hi; rw [hg]; simp [hi])
   refine ⟨hT', hS', hL', hP', hframe, fun i hi => by rw [hg]; simp [hi], by omega, by simp, ?_, ?_, ?_, ?_,
     hsame, by simp, fun ho => ⟨[s.trk.length], by rw [hjobs]; simp [ho]⟩, fun h1 h2 => (hnexh h1 h2).elim,
-    by rw [hpos]; omega⟩
+    by rw [hpos]; omega, by simp only [work, hready, hpos, hframe.spec]; omega, hpreo, by simp⟩
   · intro _ _
     exact ⟨s.trk.length, hT.t0_le, by omega, by rw [hg]; simp [newTrk]⟩
   · intro _
@@ -191,13 +195,16 @@ theorem dlspec_raise {c : Cfg} {t0 : Nat} {fo : Bool} {s s1 : St} {bs m : Nat} {
     ⟨hframe.base, hframe.spec, hframe.callId, hframe.callCtr, hframe.failIds, hframe.managed, hframe.running,
       hframe.calling, fun _ => rfl⟩, ?_, ?_, by simp, by simp, by simp, by simp, by simp, hsame, by simp,
     fun ho => ⟨[s.trk.length], by show (if ordered c then s1.jobs else s1.jobs ++ [s.trk.length]) = _; rw [hjobs]⟩,
-    fun _ h2 => by have := (hps.dead_mono h2).2.2; simp at this, ?_⟩
+    fun _ h2 => by have := (hps.dead_mono h2).2.2; simp at this, ?_, ?_,
+    fun hfo => by show s1.preLeft = _; rw [hpl]; exact hps.pl_orig hfo, by simp⟩
   · intro i hi
     rw [getTrk_push (s := s) htrk']; simp [hi]
   · show s.trk.length ≤ (s1.trk.set _ _).length
     rw [htrk']; simp
   · show s.srcPos ≤ s1.srcPos
     rw [hpos]; omega
+  · show s1.ready.length + (s1.spec.n - s1.srcPos) ≤ s.ready.length + (s.spec.n - s.srcPos)
+    rw [hready, hpos, hframe.spec]; omega
 
 theorem dispatchLocked_dlspec {c : Cfg} (hc : CfgOK c) {t0 : Nat} {fo : Bool} {bs : Nat} {s : St}
     (hbs : 1 ≤ bs) (hT : InvT c t0 none s) (hS : InvS c t0 s) (hL : InvL c t0 s) (hna : s.aborting = false) :
@@ -211,7 +218,7 @@ theorem dispatchLocked_dlspec {c : Cfg} (hc : CfgOK c) {t0 : Nat} {fo : Bool} {b
     refine dlspec_push (m := 0) (tasks := tasks) (rest := rest) hT hS hL hna htn (by simp [hrd])
       (fun b hb => hS.ready_ne b (by simp [hrd, hb])) (by simp [hrd]) hS.src_le
       (fun hi => hS.src_iter hi) (fun hd' => hS.dead hna hd') ?_ (fun h1 _ => by rw [hrd] at h1; simp at h1)
-      (fun hp => hp) rfl rfl rfl rfl rfl rfl rfl rfl rfl
+      (fun hp => hp) (fun _ => rfl) rfl rfl rfl rfl rfl rfl rfl rfl rfl
       ⟨rfl, rfl, rfl, rfl, rfl, rfl, rfl, rfl, id⟩ ⟨rfl, rfl, rfl, rfl, rfl, rfl, rfl, rfl, rfl, rfl, rfl⟩
     intro h1 h2
     have := (hL.orig_exh h1 h2 hna).1
@@ -244,11 +251,19 @@ theorem dispatchLocked_dlspec {c : Cfg} (hc : CfgOK c) {t0 : Nat} {fo : Bool} {b
       refine ⟨hT', hS', hL', hP', ⟨rfl, rfl, rfl, rfl, rfl, rfl, rfl, rfl, id⟩, fun i _ => rfl, Nat.le_refl _, ?_,
         by simp, fun _ => Nat.le_refl _, by simp, fun _ _ => rfl,
         ⟨rfl, rfl, rfl, rfl, rfl, rfl, rfl, rfl, rfl, rfl, rfl⟩, fun _ => hna, fun _ => ⟨[], by simp⟩,
-        fun h1 h2 => ⟨h1, (hps.dead_mono h2).1, rfl⟩, Nat.le_refl _⟩
-      intro _ _
-      refine ⟨hrd, ?_⟩
-      have hk : 0 < bs * c.nj := Nat.mul_pos (by omega) (by have := hc.nj; omega)
-      exact hps.short rfl hk
+        fun h1 h2 => ⟨h1, (hps.dead_mono h2).1, rfl⟩, Nat.le_refl _, Nat.le_refl _, hps.pl_orig, ?_⟩
+      · intro _ _
+        refine ⟨hrd, ?_⟩
+        have hk : 0 < bs * c.nj := Nat.mul_pos (by omega) (by have := hc.nj; omega)
+        exact hps.short rfl hk
+      · intro _
+        show pl = s.preLeft
+        cases hpl : s.preLeft with
+        | none => exact hps.pl_none hpl
+        | some q =>
+          cases fo with
+          | true => rw [hps.pl_orig rfl, hpl]
+          | false => rw [(hps.pl_some rfl q hpl).2]; rfl
     · -- a fresh slice
       subst hr
       obtain ⟨lg2, hd⟩ := dispatch_eq (c := c)
@@ -269,7 +284,7 @@ theorem dispatchLocked_dlspec {c : Cfg} (hc : CfgOK c) {t0 : Nat} {fo : Bool} {b
       refine dlspec_push (m := m) (tasks := tasks) (rest := rest) hT hS hL hna htn (by simp [hrd, hsplit])
         hrest (by simp only [List.length_cons] at hcnt; simp only [hrd, List.length_nil]; omega) hmn
         (fun hi => hps.le_iter (hS.src_iter hi)) ?_ ?_ (fun _ h2 => by rw [hnd] at h2; simp at h2)
-        hps.pl_none rfl rfl rfl rfl rfl rfl rfl rfl rfl
+        hps.pl_none hps.pl_orig rfl rfl rfl rfl rfl rfl rfl rfl rfl
         ⟨rfl, rfl, rfl, rfl, rfl, rfl, rfl, rfl, id⟩ ⟨rfl, rfl, rfl, rfl, rfl, rfl, rfl, rfl, rfl, rfl, rfl⟩
       · intro hd'
         have := hps.dead_new rfl hd' hnd
